@@ -140,6 +140,19 @@ CLAIMED = {
          "RawPathParams::iter yields matchit's pairs in route order; serde deserializers are functions of their input only; "
          "`id.into()` (&str -> String) and `Option<&str>::unwrap_or_default()` retyped to stand-in calls (rule N7, vstd lacks the specs)."),
    design="§3/C15"),
+ "C16": dict(
+   text=("Partial claim — a thin slice: one of the three mechanisms the statement rests on, 'shutdown messages are polled before "
+         "connections'. Verus discharges, on the real text of Worker::poll_inboxes and Acceptor::poll_inboxes (tokio receivers and the "
+         "JoinSet as ghost queues; whether a poll yields is an uninterpreted fact of the receiver's state): whenever a shutdown command "
+         "is ready it is what comes out, and then no connection leaves the worker's inbox (resp. the accept tasks are not even polled); a "
+         "connection is handed on only when no shutdown command is ready; Pending takes nothing. A native test with real tokio channels "
+         "and loopback sockets (0..3 connections queued BEFORE the shutdown command) replays it."),
+   note=("NOT decided — and this is almost all of C16: that no new connection is accepted after the call, that every request received "
+         "before it is answered in full, that the shutdown future resolves once all workers are idle or the timeout elapses, that Forced "
+         "resolves promptly, that awaiting the handle resolves: concurrency (acceptor thread, worker threads, tokio channels, sockets) "
+         "and liveness; Verus would need its permission/atomic-invariant types in code that does not use them, Kani has no threads, "
+         "neither decides liveness (DESIGN §3/C16). What Worker::run / Acceptor::run do with the message is not under contract."),
+   design="§3/C16"),
  "C19": dict(
    text=("Partial claim — the builder-API -> schema half. Verus discharges, on the real text of all 17 registration methods of "
          "Blueprint, of RoutingModifiers (prefix/domain/nest/routes), of every Registered* modifier (error_handler, lifecycle, "
